@@ -78,7 +78,14 @@ def build(s, log, state):
         h.__name__ = 'h_%s_%s' % (mgr, e)
         return h
 
-    class S(Service):
+    # service-level listeners are registered on a BASE service class before its subclasses exist: the subclasses inherit them
+    class Base(Service):
+        pass
+    svc_handlers = dict((e, L('svc', e)) for e in CTX_EVENTS)
+    for e in CTX_EVENTS:
+        Base.event_manager.add_listener(e, svc_handlers[e])
+
+    class S(Base):
         @srpc(Integer, _returns=Integer, _evmgr=mev)
         def f(a):
             log.append(['fn', 'call'])
@@ -139,13 +146,17 @@ def build(s, log, state):
         box_fn = state.setdefault('once', {})
         box_fn[e] = once
         app.event_manager.add_listener(e, once)
+    # a SIBLING service of the same base adds listeners of its own for the same events: they are the sibling's alone
+    class Sib(Base):
+        pass
+    for e in CTX_EVENTS:
+        Sib.event_manager.add_listener(e, (lambda e: lambda ctx: log.append(['foreign', e]))(e))
     for e in CTX_EVENTS:
         app.event_manager.add_listener(e, L('app', e))
         mev.add_listener(e, L('meth', e))
-        h1 = L('svc', e)
-        S.event_manager.add_listener(e, h1)
+        h1 = svc_handlers[e]
         S.event_manager.add_listener(e, L('svc2', e))
-        S.event_manager.add_listener(e, h1)      # registered twice: must run once
+        S.event_manager.add_listener(e, h1)      # (inherited already) registered twice: must run once
     if inj.get('fin') == 'raise_closed':
         def boom_closed(ctx): raise Boom('closed listener')
         app.event_manager.add_listener('method_context_closed', boom_closed)
